@@ -44,6 +44,22 @@ def make_cases(rng, tier, n):
         fail = rng.choice(["none", "none", "fifo", "missing_obj", "blocked", "bad_manifest"])
         strat = rng.choice("lc")
         ops = []
+        deepfiles = [e for e in files if e[1].count(b"/") >= 3]
+        if i % 5 == 2 and deepfiles:
+            # `dud run` asks for the status in its short-circuit form: a change two or more levels below the directory output makes the
+            # stage stale on every schedule (the stage has a command that touches nothing, and a plain input so that it is not run
+            # unconditionally)
+            c["init"].append(("file", b"src.txt", "g:4:4"))
+            c["stages"] = [(b"s.yaml", dict(cmd=b"vprobe S0", wd=b".", out=[(b"art", "d")], **{"in": [(b"src.txt", "")]}))]
+            victim = rng.choice(deepfiles)
+            c["ops"] = [("commit", strat, []), ("run", False, []), ("write", victim[1], "g:%d:%d" % (rng.randrange(7000, 9000), rng.choice([1, 300]))),
+                        ("run", False, []), ("rm", victim[1]), ("run", False, []), ("status", [])]
+            c["shape"] = kind
+            c["pool"] = (shared, ded, procs)
+            c["fail"] = "nested-change-run"
+            stats["fail_nested-change-run"] = stats.get("fail_nested-change-run", 0) + 1
+            cases.append(c)
+            continue
         if fail == "fifo" and files:
             victim = rng.choice(files)
             ops += [("fifo", victim[1] + b".pipe"), ("commit", strat, [])]          # commit fails at that entry, must terminate
